@@ -198,4 +198,110 @@ theorem spec_cycle_sorted_perm (ac : Bool) (ys : List Elem) (cy : Cycle) (h : So
   rw [List.take_of_length_le (by rw [h.1.length_eq]; exact hle)]
   exact h.1
 
+/-! ### rejected pushes are no-ops of the history -/
+
+theorem dropRejects_cons_reject (ops : List Op) : dropRejects (Op.reject :: ops) = dropRejects ops := by
+  simp [dropRejects, List.filter_cons]
+
+theorem dropRejects_cons_of_ne {op : Op} (h : op ≠ Op.reject) (ops : List Op) :
+    dropRejects (op :: ops) = op :: dropRejects ops := by
+  simp [dropRejects, List.filter_cons, h]
+
+/-- running a program with rejected pushes: the state is that of the program without them, the
+    outputs are those of the program without them with the rejected calls woven in (type-mismatch
+    error, no value, `Len`/`Pos` unchanged) — provided the program without them does not hang or
+    panic (it never does on a well-formed history) -/
+theorem run_rejects : ∀ (ops : List Op) (s : State), Clean (run s (dropRejects ops)).2 →
+    (run s ops).1 = (run s (dropRejects ops)).1
+    ∧ (run s ops).2 = weave ops (run s (dropRejects ops)).2 s.len s.pos := by
+  intro ops
+  induction ops with
+  | nil => intro s _; exact ⟨rfl, rfl⟩
+  | cons op ops ih =>
+    intro s hclean
+    by_cases hop : op = Op.reject
+    · subst hop
+      rw [dropRejects_cons_reject] at hclean ⊢
+      obtain ⟨h1, h2⟩ := ih s hclean
+      have hrun : run s (Op.reject :: ops) = ((run s ops).1, ⟨.rejected, none, s.len, s.pos⟩ :: (run s ops).2) := by
+        simp [run, step]
+      rw [hrun]
+      exact ⟨h1, by simp only [weave]; rw [h2]⟩
+    · rw [dropRejects_cons_of_ne hop] at hclean ⊢
+      -- the first call neither hangs nor panics
+      have hfirst : (step s op).2.res ≠ .hang ∧ (step s op).2.res ≠ .panic := by
+        apply hclean
+        simp only [run]
+        split <;> simp
+      have hne : ¬ ((step s op).2.res = .hang ∨ (step s op).2.res = .panic) := by
+        intro h; rcases h with h | h
+        · exact hfirst.1 h
+        · exact hfirst.2 h
+      have hr1 : ∀ l, run s (op :: l) = ((run (step s op).1 l).1, (step s op).2 :: (run (step s op).1 l).2) := by
+        intro l; simp only [run, hne, if_false]
+      have hclean' : Clean (run (step s op).1 (dropRejects ops)).2 := by
+        intro o ho
+        apply hclean
+        rw [hr1]; exact List.mem_cons_of_mem _ ho
+      obtain ⟨h1, h2⟩ := ih (step s op).1 hclean'
+      rw [hr1, hr1]
+      refine ⟨h1, ?_⟩
+      have hlp : (step s op).2.len = (step s op).1.len ∧ (step s op).2.pos = (step s op).1.pos := by
+        cases op with
+        | reject => exact absurd rfl hop
+        | push e => exact ⟨rfl, rfl⟩
+        | finalise => exact ⟨rfl, rfl⟩
+        | pull => exact ⟨rfl, rfl⟩
+        | clear => exact ⟨rfl, rfl⟩
+      rw [h2]
+      cases op with
+      | reject => exact absurd rfl hop
+      | push e => simp only [weave, hlp.1, hlp.2]
+      | finalise => simp only [weave, hlp.1, hlp.2]
+      | pull => simp only [weave, hlp.1, hlp.2]
+      | clear => simp only [weave, hlp.1, hlp.2]
+
+theorem specCycle_clean (ac : Bool) (ys : List Elem) (cy : Cycle) : Clean (specCycle ac ys cy) := by
+  intro o ho
+  unfold specCycle at ho
+  simp only [List.mem_append, List.mem_cons, List.mem_map, List.mem_range] at ho
+  rcases ho with ⟨i, _, rfl⟩ | rfl | ⟨j, _, rfl⟩ | ho
+  · simp
+  · simp
+  · cases ys[j]? <;> simp
+  · split at ho
+    · simp only [List.mem_singleton] at ho; subst ho; simp
+    · simp at ho
+
+theorem historySpec_clean (ac : Bool) : ∀ (h : List Cycle) (outs : List Out), HistorySpec ac h outs → Clean outs := by
+  intro h
+  induction h with
+  | nil => intro outs ho; simp only [HistorySpec] at ho; subst ho; intro o ho; simp at ho
+  | cons cy rest ih =>
+    intro outs ho
+    obtain ⟨ys, outs', _, rfl, hrest⟩ := ho
+    intro o hmem
+    rcases List.mem_append.mp hmem with h1 | h1
+    · exact specCycle_clean ac ys cy o h1
+    · exact ih outs' hrest o h1
+
+/-- **A rejected Push is a no-op of the history.**  A program whose accepted calls are the
+    well-formed history `h` — rejected pushes (values of another type) inserted anywhere: before
+    the first push, when the chunk is exactly full, between Finalise and the pulls, after
+    io.EOF — produces `weave ops outs 0 0`, where `outs` satisfy `HistorySpec ac h`: every accepted
+    call behaves as if the rejected ones had not been made, and every rejected `Push` returns its
+    error, delivers nothing and leaves `Len`/`Pos` unchanged. -/
+theorem history_rejected_push_noop (c : Nat) (hc : 1 ≤ c) (ac : Bool) (h : List Cycle)
+    (hwf : wellFormed ac h = true) (ops : List Op) (hops : dropRejects ops = histOps h) :
+    ∃ outs, HistorySpec ac h outs ∧ (run (init c ac) ops).2 = weave ops outs 0 0 := by
+  have hspec := history_sorted_multiset c hc ac h hwf
+  refine ⟨(run (init c ac) (histOps h)).2, hspec, ?_⟩
+  have := (run_rejects ops (init c ac) (by rw [hops]; exact historySpec_clean ac h _ hspec)).2
+  rw [hops] at this
+  exact this
+
+/-- non-vacuity: chunk 2, push 2 1, a rejected Push with the chunk exactly full, Finalise, pulls -/
+example : (run (init 2 false) [.push ⟨2,0⟩, .push ⟨1,0⟩, .reject, .finalise, .pull, .pull, .reject, .pull]).2.map (·.res)
+    = [.ok, .ok, .rejected, .ok, .ok, .ok, .rejected, .eof] := by decide
+
 end Biogo.Properties.C11
